@@ -36,8 +36,9 @@ META = {
     "level_text": ("Proved for all inputs of the model: from_lines(to_lines(d)) = d for every MergeDirective2 satisfying the "
                    "executable guard dir_ok (all field values, unbounded lengths; the RIO-patch wrapping/unwrapping of bzrformats is "
                    "part of the model and of the proof), with a machine-checked witness for every excluded class (CR at a line end, "
-                   "backslash cut by the 68-column wrap, negative non-whole-hour timezone, sub-second time, patch line "
-                   "'# Begin bundle'); parse_patch_date(format_patch_date) round trip on its domain and its refutation for -0330; "
+                   "backslash cut by the 68-column wrap, sub-second time, patch line '# Begin bundle'); "
+                   "parse_patch_date(format_patch_date) round trip on its whole domain (negative half-hour zones included since the "
+                   "repair of C40-patch-date-negative-minutes); "
                    "_verify_patch detects every difference outside blanks/line ends (so every changed non-blank byte) and provably "
                    "accepts blank-only changes; v4 record names decode back unless a later name starts with '/' or an inner one is "
                    "empty; a bundle record with a changed text is refused over an abstract collision-free hash; installing "
@@ -105,7 +106,7 @@ def corpus():
     out.append(_dir(msg="a\r\nb"))
     out.append(_dir(msg="x" * 58 + "\\" + "yyyy"))               # backslash split by the 68-column wrap
     out.append(_dir(target="C:\\" + "d" * 41 + "\\" + "e" * 30))  # same, a windows path
-    out.append(_dir(tz=-12600))                                   # -0330 parses as -0230
+    out.append(_dir(tz=-12600))                                   # regression: -0330 used to parse as -0230 (repaired)
     out.append(_dir(tz=-1800))
     out.append(_dir(ns=750000000))                                # sub-second time
     out.append(_dir(patch=b"a\n# Begin bundle\nb\n", bundle=b"QUJD"))
@@ -145,13 +146,13 @@ def corpus():
         return {"k": "bundle", "h": h, "base": base, "tgt": tgt, "bfmt": bfmt, "extra": [], "stream": True, "dfmt": None}
 
     dirfile = [["add", b"d1", None, "dir", "directory", None, False], ["add", b"f1", b"d1", "f", "file", b"x\n", False]]
-    out.append(bcase(hist("2a", dirfile, [["mv", b"d1", None, "dir2"]]), 0, 1))                  # C40-v09-chk-dir-rename
+    out.append(bcase(hist("2a", dirfile, [["mv", b"d1", None, "dir2"]]), 0, 1))                  # regression: C40-v09-chk-dir-rename (repaired by b515e80)
     out.append(bcase(hist("pack-0.92", dirfile, [["mv", b"d1", None, "dir2"]]), 0, 1))           # same history, not CHK: fine
     ml = [["m", "Joe <joe@example.com>", 1700000000, 0, 0, [["k", "multi\nline"]]], meta[1]]
     out.append(bcase(hist("2a", [["add", b"f1", None, "f", "file", b"x\n", False]], [], meta=ml), None, 0))   # multiline revprop
     plain = [["add", b"f1", None, "plain", "file", b"x\n", False]]
     out.append(bcase(hist("pack-0.92", plain, [["mv", b"f1", None, "=> b"]]), 0, 1))             # '=> ' prefix
-    out.append(bcase(hist("pack-0.92", [], [["add", b"f1", None, "a" * 63 + "\u00e9", "file", b"x\n", False]]), 0, 1))  # 79-byte wrap
+    out.append(bcase(hist("pack-0.92", [], [["add", b"f1", None, "a" * 63 + "\u00e9", "file", b"x\n", False]]), 0, 1))  # regression: 79-byte wrap inside a character (repaired by 6372b00)
     out.append(bcase(hist("pack-0.92", [], [["add", b"f1", None, "a" * 62 + "\u00e9", "file", b"x\n", False]]), 0, 1))  # one byte earlier: fine
     out.append(bcase(hist("2a", dirfile, [["mv", b"d1", None, "dir2"]]), 0, 1, bfmt="4"))
     return out
@@ -756,13 +757,7 @@ def _explain(d, got, from_file):
                 continue
             return None
         if name in ("t", "tz"):
-            tz = d["tz"]
-            if tz < 0 and tz % 3600 != 0:
-                gtz = -(abs(tz) // 3600) * 3600 + ((abs(tz) // 60) % 60) * 60
-                if got[4] == gtz and got[2] == d["t"] + tz - gtz:
-                    used.add("C40-patch-date-negative-minutes")
-                    continue
-            return None
+            return None                      # (C40-patch-date-negative-minutes is repaired: no excuse any more)
         if name in ("patch", "bundle"):
             if _marker_ambiguous(d, from_file):
                 used.add("C40-payload-marker-ambiguity")
@@ -887,16 +882,11 @@ def finding_matches(fid, inp, obs, why):
         if k != "bundle" or inp["bfmt"] not in ("0.8", "0.9"):
             return False
         spec, base, tgt = inp["h"], inp["base"], inp["tgt"]
-        if fid == "C40-v09-chk-dir-rename":
-            return (obs.get("write_error") == "NoSuchFile" and spec["fmt"] in ("2a",)
-                    and H.dir_rename_hits_chk(spec, base, tgt))
         err = obs.get("install_error")
         if fid == "C40-v09-multiline-revprop":
             return err in ("TestamentMismatch", "MalformedHeader") and H.has_multiline_prop(spec, H.bundled_revs(spec, base, tgt))
         if fid == "C40-v09-rename-arrow-prefix":
             return err in ("TestamentMismatch", "TypeError", "KeyError", "NoSuchId", "NoSuchFile") and H.arrow_rename(spec, base, tgt)
-        if fid == "C40-v09-action-wrap-splits-utf8":
-            return err == "UnicodeDecodeError" and H.non_ascii(spec)
         return False
     if k == "codec":
         if isinstance(obs, Err):
@@ -915,12 +905,6 @@ def finding_matches(fid, inp, obs, why):
         if fid != "C40-rio-cr-line-end" or obs[1][1] != [b"rest"] or obs[1][0] is None:
             return False
         return obs[1][0] == [[t, _cr_stripped(v)] for t, v in want]
-    if k == "date":
-        o = inp["o"]
-        if fid != "C40-patch-date-negative-minutes" or isinstance(obs, Err) or isinstance(obs[1], Err):
-            return False
-        gtz = -(abs(o) // 3600) * 3600 + ((abs(o) // 60) % 60) * 60
-        return o < 0 and o % 3600 != 0 and obs[1] == [inp["s"] + o - gtz, gtz]
     if fid == "C40-verify-normalises-whitespace":
         if k == "verify":
             return inp["stored"] != inp["calc"] and _strip_ws(inp["stored"]) == _strip_ws(inp["calc"])
